@@ -40,6 +40,7 @@ SPEC = {
     "theorems": ["C01_json_roundtrip", "C01_json_roundtrip_canon", "C01_json_canon_id", "C01_json_api_roundtrip", "C01_json_map_any_iteration_order",
                  "C01_json_key_order_irrelevant", "C01_json_key_order_by_lookup", "C01_json_map_member_order",
                  "C01_json_encode_order_irrelevant", "C01_json_isEmpty_order_irrelevant",
+                 "C01_json_encode_no_duplicate_members", "C01_json_roundtrip_any_order",
                  "C01_json_model_type_member", "C01_json_model_time_saturation"] + SOURCE_OBLIGATIONS,
     "trusted_base": [
         "hand-written model Hive/Model/SerixJson.lean (+SerixJsonText) of serializer/serix/map_encode.go and map_decode.go, tied by "
@@ -81,5 +82,6 @@ SPEC = {
                 "by the Go oracle); encoding/json carrying the Json tree. No open finding (five fix: commits in map_encode.go / map_decode.go). Not modelled: self-serialising types, validators, MustOccur, inlined interfaces, non-UTF-8 strings.",
         "technique": "Lean 4 mutual structural induction over the schema type + differential correspondence on random schemas",
     },
-    "assumptions": ["documents handed to the decoder are map[string]any trees (no duplicate member names)"],
+    "assumptions": ["documents handed to the decoder are map[string]any trees (no duplicate member names) - proved for every document the "
+                    "encoder itself wrote (C01_json_encode_no_duplicate_members), true of whatever json.Unmarshal builds"],
 }
